@@ -51,6 +51,8 @@ func pool(thorough bool) []val {
 		{Src: "9223372036854775807", Fam: "int"},
 		{Src: "0.0", Fam: "float"}, {Src: "1.0", Fam: "float"}, {Src: "1.5", Fam: "float"}, {Src: "(-1.5)", Fam: "float"}, {Src: "2.5", Fam: "float"},
 		{Src: "FB.new(1.5)", Fam: "float", Desc: true}, {Src: "FB.new(2.5)", Fam: "float", Desc: true},
+		// floats that differ by less than any sensible tolerance, tiny magnitudes, results of arithmetic
+		{Src: "(0.1 + 0.2)", Fam: "float"}, {Src: "0.3", Fam: "float"}, {Src: "1.0e-10", Fam: "float"}, {Src: "2.0e-10", Fam: "float"}, {Src: "1.0000000001", Fam: "float"}, {Src: "(1.5 - 1.0e-12)", Fam: "float"},
 		{Src: `"nan".F`, NaN: true},
 		{Src: `""`, Fam: "str"}, {Src: `"a"`, Fam: "str"}, {Src: `"b"`, Fam: "str"}, {Src: `"ab"`, Fam: "str"}, {Src: `'a`, Fam: "str"},
 		// two different texts with the same 64-bit FNV-1a value (the symbol hash), and strs that are not valid UTF-8
